@@ -18,6 +18,34 @@ def _viol(ctx, name, detail, sc):
                                family="oracle:" + name))
 
 
+class _OracleHang(BaseException):
+    pass
+
+
+def _limited(check, sc):
+    """run one oracle case under a CPU-time limit (a broken implementation may loop for ever, allocating as it
+    goes): no answer within the limit is reported as a failing input.  Cases carry their own limit in
+    sc['timeout']; the default is generous (the longest clean case takes well under a minute)."""
+    import os
+    import signal
+    secs = float(sc.get("timeout") or os.environ.get("VERIF_ORACLE_TIMEOUT", 300)) if isinstance(sc, dict) else 300.0
+    if threading.current_thread() is not threading.main_thread() or secs <= 0:
+        return check(sc)
+
+    def onalarm(signum, frame):
+        raise _OracleHang()
+
+    old = signal.signal(signal.SIGVTALRM, onalarm)
+    signal.setitimer(signal.ITIMER_VIRTUAL, secs)
+    try:
+        return check(sc)
+    except _OracleHang:
+        return f"no answer within {secs:.0f} CPU seconds (hangs, or does unbounded work)", True
+    finally:
+        signal.setitimer(signal.ITIMER_VIRTUAL, 0)
+        signal.signal(signal.SIGVTALRM, old)
+
+
 def _run(ctx, name, n_quick, n_thorough, make, check):
     n = ctx.scale(n_quick, n_thorough)
     bad = 0
@@ -25,7 +53,7 @@ def _run(ctx, name, n_quick, n_thorough, make, check):
     for _ in range(n):
         sc = make(ctx.rng)
         try:
-            r = check(sc)
+            r = _limited(check, sc)
         except TreepathException:
             r = (None, False)   # a generated predicate raised: outside this oracle's scope
         except Exception as e:  # an oracle that crashes on the implementation's behaviour reports it
@@ -1257,7 +1285,7 @@ def cyclic_oracle(ctx):
         {"kind": "mutual", "path": [["rec"], ["i", 1]], "take": 2, "expect": "results", "first": [7, 7]},
     ]
     n = ctx.scale(2, len(cases))
-    picks = cases[:n] if ctx.tier == "thorough" else [cases[2 * ctx.rng.randrange(0, 3)], cases[1 + 2 * ctx.rng.randrange(0, 3)]]   # one that cannot finish, one that can
+    picks = cases[:n] if ctx.tier == "thorough" else [cases[0], cases[2 + 2 * ctx.rng.randrange(0, 2)], cases[1 + 2 * ctx.rng.randrange(0, 3)]]   # two that cannot finish, one that can
     picks = picks + [{"kind": "dict", "path": [["rec"], ["k", "x"]], "take": 350000, "expect": "many", "first": [],
                       "timeout": 120}]
     # a has-predicate whose witness is the first value its (infinite) relative search selects must
@@ -1306,7 +1334,7 @@ def cyclic_optional_check(sc):
 
 
 def cyclic_optional_oracle(ctx):
-    cases = [{"call": c, "src": s_, "path": [["rec"], ["k", "nope"]]}
+    cases = [{"call": c, "src": s_, "path": [["rec"], ["k", "nope"]], "timeout": 45}
              for c in ("get_default", "get_match_optional", "pop_default", "pop_match_optional", "get_store_default") for s_ in ("doc", "match")]
     picks = cases if ctx.tier == "thorough" else [cases[0], cases[3], cases[4], cases[7]]
     it = iter(picks)
